@@ -158,8 +158,10 @@ def qualified(prelude, block, opts, out, low, stack):
             return
         if len(p) == 2 and kind(p[1]) == 'Ident':
             dst = low
-            for s in stack:
-                dst.append(('RAW', s))
+            for (nm, prelude_toks) in stack:
+                dst.append(('AtKeyword', nm))
+                dst.extend(prelude_toks)
+                dst.append(('CurlyBracketBlock',))
             dst.append(('SquareBracketBlock',))
             dst += [('Ident', 'wx-host'), ('Delim', '='), ('QuotedString', opts.get('class_prefix') or ''), ('CloseSquareBracket',)]
             if opts.get('host_is') is not None:
@@ -170,7 +172,7 @@ def qualified(prelude, block, opts, out, low, stack):
             value_seq(block.get('children', []), opts, dst, False)
             dst.append(('CloseCurlyBracket',))
             for s in stack:
-                dst.append(('RAWCLOSE',))
+                dst.append(('CloseCurlyBracket',))
         # `:host` combined with other selectors: dropped from both outputs (with a warning)
         return
     selector_seq(prelude, opts, out)
